@@ -5,8 +5,8 @@ from .common import Laws, run_subprocess, main_entry
 from .. import inputs
 
 SPEC = dict(
-    lean_modules=['SmVerif.Props.C09'],
-    groups=[],
+    lean_modules=['SmVerif.Props.C09', 'SmVerif.Props.Multi'],
+    groups=['Multi'],
     partial=['the broadcasting model (Logic.Broadcast) is hand-written; its tie to smuserlist.binop/_op2/unop is the exhaustive '
              'enumeration over lengths 1..5 with pairwise distinct elements'],
     assumptions=['element values are pairwise distinct so that a result taken from the wrong index or operand is visible'],
@@ -98,7 +98,7 @@ def _impl(tier, seed, search):
             if c in ('SO2', 'SE2', 'SO3', 'SE3'):
                 methods = {'inv': lambda Z: Z.inv(), 'R': lambda Z: Z.R, 'det': lambda Z: Z.det(), '**2': lambda Z: Z ** 2, '**-1': lambda Z: Z ** -1,
                            'log': lambda Z: Z.log(), 'norm': lambda Z: Z.norm(),
-                           'interp(0.3)': lambda Z: Z.interp(0.3)}
+                           'interp(0.3)': lambda Z: Z.interp(0.3), 'interp(0)': lambda Z: Z.interp(0), 'interp(1)': lambda Z: Z.interp(1), 'interp(0.0)': lambda Z: Z.interp(0.0)}
                 if c in ('SE2', 'SE3'): methods['t'] = lambda Z: Z.t
                 if c in ('SO3', 'SE3'): methods.update({'eul': lambda Z: Z.eul(), 'rpy': lambda Z: Z.rpy(), 'angvec': lambda Z: Z.angvec(),
                                                         'rpy(xyz)': lambda Z: Z.rpy(order='xyz'), 'rpy(yxz)': lambda Z: Z.rpy(order='yxz'), 'rpy(deg)': lambda Z: Z.rpy(unit='deg'),
